@@ -93,10 +93,44 @@ SPEC['C09'] = ('Consistency is decided by the dependency checker on a timely sta
   ('C09_decides_consistent', 'Local', 'check_deps_consistent', 'validation: Consistent from the dependency own checker on its stored stamp => validation continues'),
   ('C09_decides_inconsistent', 'Local', 'check_deps_inconsistent', 'validation: Inconsistent => the owner is not reused'),
 ], 'For arbitrary checker records.')
-SPEC['C16'] = ('Build behaviour is a deterministic function of the history', ['Sorting'], [
+SPEC['C16'] = ('Build behaviour is a deterministic function of the history', ['Sorting', 'DagWF', 'DagRun', 'Queue', 'Determinism'], [
   ('C16_sort_order_independent', 'Sorting', 'sort_by_order_independent',
    'the only places where the code iterates unordered containers (the two change sets of reorder_nodes, the bottom-up queue) sort by unique ranks: the result is independent of the arrival order'),
-], 'The model is a function of the history by construction; the runtime part (hash seeds, processes) is decided by two-process replay.')
+], 'The model is a function of the history by construction; what the theorems add: the ITERATION ORDER of the unordered containers the code iterates (the two HashSets of reorder_nodes; the push order of the bottom-up queue) does not reach any result. The runtime part (hash seeds, processes, allocation addresses) is decided by two-process replay.')
+RAW['C16'] = [
+  ('C16_reorder_depends_on_sets_only',
+   'reorder_nodes: the two change sets may be handed over in any order and with any multiplicity; only their membership counts (ranks injective on them, which WF gives for live nodes)',
+   """  forall (E : Type) (g : dag E) cf cf' cb cb',
+  (forall x, In x cf <-> In x cf') -> (forall x, In x cb <-> In x cb') ->
+  (forall x y, In x cf -> In y cf -> rank_of g x = rank_of g y -> x = y) ->
+  (forall x y, In x cb -> In y cb -> rank_of g x = rank_of g y -> x = y) ->
+  reorder_nodes g cf cb = reorder_nodes g cf' cb'""",
+   'intros E g cf cf\' cb cb\'. exact (@reorder_nodes_set_independent E g cf cf\' cb cb\').'),
+  ('C16_add_edge_independent_of_set_iteration_order',
+   'add_edge_sh is the text of add_edge with the two change sets passed through ARBITRARY functions of the whole graph that keep membership (the iteration order a differently seeded HashSet would produce, repetitions allowed): on every well-formed graph it returns the same answer and the same graph as add_edge',
+   """  forall (E : Type) (shf shb : dag E -> list node -> list node),
+  (forall g l x, In x (shf g l) <-> In x l) -> (forall g l x, In x (shb g l) <-> In x l) ->
+  forall (g : dag E) s d e, WF g -> add_edge_sh shf shb g s d e = add_edge g s d e""",
+   'intros E shf shb Hf Hb g s d e. exact (@add_edge_iteration_order_independent E shf shb Hf Hb g s d e).'),
+  ('C16_graph_independent_of_set_iteration_order_all_sequences',
+   'hence for EVERY operation sequence from the empty graph (the quantifier of C10/C11), with no premise: the graph reached is the same whatever the iteration orders were',
+   """  forall (E : Type) (shf shb : dag E -> list node -> list node),
+  (forall g l x, In x (shf g l) <-> In x l) -> (forall g l x, In x (shb g l) <-> In x l) ->
+  forall (ops : list (gop E)), grun_sh shf shb ops = grun ops""",
+   'intros E shf shb Hf Hb ops. exact (@grun_iteration_order_independent E shf shb Hf Hb ops).'),
+  ('C16_queue_pop_independent_of_push_order',
+   'Queue::pop: the task popped and the queue left behind depend on the set of queued tasks only (unique ranks), not on the order in which they were pushed',
+   """  forall (w : world) (q' : list task),
+  Permutation (queue w) q' -> NoDup (map (rank_t w) (queue w)) ->
+  queue_pop (set_queue w q') = queue_pop w""",
+   'exact queue_pop_order_independent.'),
+  ('C16_pop_least_independent_of_push_order',
+   'pop_least_task_with_dependency_from likewise',
+   """  forall (w : world) (src : task) (q' : list task),
+  Permutation (queue w) q' -> NoDup (map (rank_t w) (queue w)) ->
+  pop_least_from (set_queue w q') src = pop_least_from w src""",
+   'exact pop_least_from_order_independent.'),
+]
 SPEC['C18'] = ('Checker errors during validation never cause stale reuse and are reported', ['Local', 'ErrRep', 'BuJust', 'Justify', 'TdForward', 'Mid'], [
   ('C18_errors_reported_session_reused_after_abort', 'Mid', 'zsession_errors_reported', 'never swallowed, also when the Session is used on after a caught abort'),
   ('C18_errors_reported_with_mid_session_edits', 'Mid', 'msession_errors_reported', 'never swallowed, also in sessions during which resources change from outside'),
